@@ -168,7 +168,7 @@ def run(ctx):
     cases += vlib.tlc_gen(ctx, "Gen_Glm", {"constants": GEN_GLM[ctx.tier], "invariants": ["Emit"]})
     ctx.extra["tlc_enumerated_cases"] = len(cases)
     if not ctx.quick:
-        cases += random_cases(ctx, 2500)
+        cases += random_cases(ctx, 2000)
     vlib.number(cases)
     ctx.cases = len(cases)
     ctx.nontrivial = len({json.dumps(c["inp"], sort_keys=True) + c["kind"] for c in cases if nontrivial(c)})
